@@ -18,7 +18,7 @@ type Fix struct {
 }
 
 func NewFix() (*Fix, error) {
-	w, err := world.New(world.Config{Hold: false})
+	w, err := world.New(world.Config{Hold: false, Parallel: true})
 	if err != nil {
 		return nil, err
 	}
